@@ -19,11 +19,15 @@ for root, _, files in os.walk(os.path.join(src, 'nfc')):
         name = '.'.join(rel)
         tree = canonical(ast.parse(open(p).read()))
         d = {}
+        allunits = {}
         for key, f in alpha.units(tree):
             i = alpha.info(f)
             if i is not None and i[1]:
                 d[key] = {'hash': i[0], 'names': i[1]}
+            # every unit with the names of the functions nested in it (nfcsa/inline.py: what is not listed here is new)
+            allunits[key] = sorted(x.name for x in ast.walk(f) if x is not f and isinstance(x, ast.FunctionDef))
+        d['__units__'] = allunits
         out[name] = d
 with open(alpha.REF_FILE, 'w') as f:
     json.dump(out, f, indent=0, sort_keys=True)
-print('%d modules, %d functions with locals' % (len(out), sum(len(v) for v in out.values())))
+print('%d modules, %d functions with locals, %d units' % (len(out), sum(len(v) - 1 for v in out.values()), sum(len(v['__units__']) for v in out.values())))
